@@ -359,6 +359,9 @@ class FpInterp(object):
             if n.k == 'MemberExpr' and n.decl and n.decl.get('kind') == 'field' and n.decl.get('name') == 'p' and n.c and n.c[0].strip_all().k == 'CXXThisExpr':
                 self.pfield = n.decl_id
         self.pushes = []
+        self.returns = []
+        self.unknown_nodes = []
+        self.depth = 0
 
     def is_p(self, n):
         s = n.strip_all()
@@ -402,6 +405,21 @@ class FpInterp(object):
                     hi = b_min(a.hi, (-1, 1)) if a.hi != INF else (-1, 1)
                     return Iv(ZERO if not b_le((0, 0), a.lo) or True else a.lo, hi if hi is not None else (-1, 1))
                 return Iv((1, -1), (-1, 1))
+        # a one-parameter helper of the class (e.g. normalize(v)): interpreted with the argument's interval
+        if s.k in ('CXXMemberCallExpr', 'CallExpr') and s.callee and s.callee.get('in_repo') and s.callee_id is not None and len(s.args()) == 1 and self.depth < 3:
+            hf = self.prog.fn_of_fref(s.callee_id)
+            if hf is not None and hf.body is not None and len(hf.param_ids) == 1:
+                sub = FpInterp(self.prog, hf, self.rep, self.rule)
+                sub.depth = self.depth + 1
+                sub.run(hf.body, {hf.param_ids[0]: self.value(s.args()[0], envv)})
+                self.unknown_nodes += sub.unknown_nodes
+                if sub.returns and not sub.pushes:
+                    out = None
+                    for r in sub.returns:
+                        out = iv_join(out, r)
+                    return out
+        # an existing entry's value read through an iterator / reference: the class invariant
+        self.unknown_nodes.append(s)
         return TOP
 
     def refine(self, cond, envv, truth):
@@ -458,6 +476,10 @@ class FpInterp(object):
                 if envv is None:
                     return None
             return envv
+        if k == 'ReturnStmt':
+            if stmt.c:
+                self.returns.append(self.value(stmt.c[0], envv))
+            return None
         if k == 'DeclStmt':
             for n in stmt.c:
                 if n.k == 'VarDecl':
@@ -537,6 +559,11 @@ class FpInterp(object):
                 val = a[1]
             if val is not None:
                 self.pushes.append((e, val, self.value(val, envv)))
+            elif len(a) == 1 and a[0].strip_all().k in ('UnaryOperator', 'CXXOperatorCallExpr') and a[0].strip_all().op == '*':
+                # an existing entry copied through an iterator: the class invariant (induction hypothesis)
+                self.pushes.append((e, a[0], Iv((1, 0), (-1, 1))))
+            elif len(a) == 1 and ex.var_of(a[0]) is not None and 'tuple' in ((self.prog.base_type(a[0].strip_all().j.get('t')) or {}).get('canon') or ''):
+                self.pushes.append((e, a[0], Iv((1, 0), (-1, 1))))
             else:
                 self.pushes.append((e, None, None))
             return envv
@@ -571,8 +598,11 @@ def check_fp_ranges(rep, prog, fn):
             rep.undecided('R18b', node, fn, what, 'pushed element is not (index, value)')
             continue
         ok = b_le((1, 0), iv.lo) and b_le(iv.hi, (-1, 1))
+        unk = interp.unknown_nodes + interp_top.unknown_nodes
         if ok:
             rep.ok('R18b', node, fn, what, 'symbolic interval %r' % iv)
+        elif unk and iv.lo == NINF and iv.hi == INF:
+            rep.undecided('R18b', node, fn, what, 'the stored value depends on `%s`, which the interval interpreter does not understand' % unk[0].text(40))
         else:
             rep.violation('R18b', node, fn, what,
                           'the stored value ranges over %r (bounds in terms of p): it can be %s, so a coordinate that is 0 modulo p is kept or a value is not reduced' % (
@@ -650,7 +680,7 @@ def check_fp_merge(rep, prog, fn, kind):
             if order in ('lt', 'gt'):
                 owner = 'this' if order == 'lt' else 'arg'
                 wantp = ('tuple', ('idx', owner), ('val', owner))
-                if len(pushes) != 1 or pushes[0][1] != wantp:
+                if len(pushes) != 1 or pushes[0][1] not in (wantp, ('elem', owner), ('entry', owner)):
                     bad.append('%s: pushes %s, expected the entry of the %s operand' % (order, [p[1] for p in pushes], owner))
             else:
                 if pushes:
